@@ -119,6 +119,42 @@ func spMetadataXML(entityID string, acs []string) string {
 	return sb.String()
 }
 
+// aggEnt is one entity of an EntitiesDescriptor aggregate (SP = it has an SPSSODescriptor).
+type aggEnt struct {
+	Entity string
+	ACS    []string
+	SP     bool
+}
+
+func (e aggEnt) xml() string {
+	if e.SP {
+		return spMetadataXML(e.Entity, e.ACS)
+	}
+	return `<EntityDescriptor xmlns="urn:oasis:names:tc:SAML:2.0:metadata" entityID="` + html.EscapeString(e.Entity) + `">` +
+		`<IDPSSODescriptor protocolSupportEnumeration="urn:oasis:names:tc:SAML:2.0:protocol">` +
+		`<SingleSignOnService Binding="` + postBinding + `" Location="https://other-idp.example.com/sso"></SingleSignOnService>` +
+		`</IDPSSODescriptor></EntityDescriptor>`
+}
+
+// aggregateXML renders an EntitiesDescriptor; nested (if any) is wrapped in an inner
+// EntitiesDescriptor placed before the top-level entities.
+func aggregateXML(ents []aggEnt, nested []aggEnt) string {
+	var sb strings.Builder
+	sb.WriteString(`<EntitiesDescriptor xmlns="urn:oasis:names:tc:SAML:2.0:metadata" Name="aggregate">`)
+	if len(nested) > 0 {
+		sb.WriteString(`<EntitiesDescriptor Name="inner">`)
+		for _, e := range nested {
+			sb.WriteString(e.xml())
+		}
+		sb.WriteString(`</EntitiesDescriptor>`)
+	}
+	for _, e := range ents {
+		sb.WriteString(e.xml())
+	}
+	sb.WriteString(`</EntitiesDescriptor>`)
+	return sb.String()
+}
+
 // authnRequestB64 is the POST-binding form value of an AuthnRequest.
 func authnRequestB64(issuer, acsURL, id string, now time.Time) string {
 	x := `<samlp:AuthnRequest xmlns:samlp="urn:oasis:names:tc:SAML:2.0:protocol" xmlns:saml="urn:oasis:names:tc:SAML:2.0:assertion"` +
